@@ -15,7 +15,8 @@
      stamps occur (the weakness conceded by that comment).
    - Python objects are indices into total maps (struct of arrays): connections, records, fairies.
    - ghost fields (never read by the code paths): c_det, c_mark, c_soft, taint_close (a BaseException escaped
-     a DBAPI close()), taint_reset (a BaseException escaped the reset of an explicitly returned fairy).
+     a DBAPI close()), taint_gc (a BaseException escaped close() inside the error handler of _finalize_fairy while it ran
+     as weakref callback).
    Definitions only; proofs live in PoolSeq*Proofs.v. *)
 From Coq Require Import List ZArith Bool Arith.
 Import ListNotations.
@@ -59,7 +60,7 @@ Record ext : Type := mk_ext {
   faults_ : list Z;
   trace_ : list (Z * Z);
   taint_close_ : bool;
-  taint_reset_ : bool
+  taint_gc_ : bool
 }.
 Record cns : Type := mk_cns {
   nconns_ : nat;
@@ -114,12 +115,12 @@ Definition clock (s : st) : Z := clock_ (ex s).
 Definition faults (s : st) : list Z := faults_ (ex s).
 Definition trace (s : st) : list (Z * Z) := trace_ (ex s).
 Definition taint_close (s : st) : bool := taint_close_ (ex s).
-Definition taint_reset (s : st) : bool := taint_reset_ (ex s).
-Definition set_clock (s : st) (v : Z) : st := set_ex s {| clock_ := v; faults_ := faults_ (ex s); trace_ := trace_ (ex s); taint_close_ := taint_close_ (ex s); taint_reset_ := taint_reset_ (ex s) |}.
-Definition set_faults (s : st) (v : list Z) : st := set_ex s {| clock_ := clock_ (ex s); faults_ := v; trace_ := trace_ (ex s); taint_close_ := taint_close_ (ex s); taint_reset_ := taint_reset_ (ex s) |}.
-Definition set_trace (s : st) (v : list (Z * Z)) : st := set_ex s {| clock_ := clock_ (ex s); faults_ := faults_ (ex s); trace_ := v; taint_close_ := taint_close_ (ex s); taint_reset_ := taint_reset_ (ex s) |}.
-Definition set_taint_close (s : st) (v : bool) : st := set_ex s {| clock_ := clock_ (ex s); faults_ := faults_ (ex s); trace_ := trace_ (ex s); taint_close_ := v; taint_reset_ := taint_reset_ (ex s) |}.
-Definition set_taint_reset (s : st) (v : bool) : st := set_ex s {| clock_ := clock_ (ex s); faults_ := faults_ (ex s); trace_ := trace_ (ex s); taint_close_ := taint_close_ (ex s); taint_reset_ := v |}.
+Definition taint_gc (s : st) : bool := taint_gc_ (ex s).
+Definition set_clock (s : st) (v : Z) : st := set_ex s {| clock_ := v; faults_ := faults_ (ex s); trace_ := trace_ (ex s); taint_close_ := taint_close_ (ex s); taint_gc_ := taint_gc_ (ex s) |}.
+Definition set_faults (s : st) (v : list Z) : st := set_ex s {| clock_ := clock_ (ex s); faults_ := v; trace_ := trace_ (ex s); taint_close_ := taint_close_ (ex s); taint_gc_ := taint_gc_ (ex s) |}.
+Definition set_trace (s : st) (v : list (Z * Z)) : st := set_ex s {| clock_ := clock_ (ex s); faults_ := faults_ (ex s); trace_ := v; taint_close_ := taint_close_ (ex s); taint_gc_ := taint_gc_ (ex s) |}.
+Definition set_taint_close (s : st) (v : bool) : st := set_ex s {| clock_ := clock_ (ex s); faults_ := faults_ (ex s); trace_ := trace_ (ex s); taint_close_ := v; taint_gc_ := taint_gc_ (ex s) |}.
+Definition set_taint_gc (s : st) (v : bool) : st := set_ex s {| clock_ := clock_ (ex s); faults_ := faults_ (ex s); trace_ := trace_ (ex s); taint_close_ := taint_close_ (ex s); taint_gc_ := v |}.
 Definition nconns (s : st) : nat := nconns_ (cn s).
 Definition c_nclose (s : st) : nat -> Z := c_nclose_ (cn s).
 Definition c_start (s : st) : nat -> Z := c_start_ (cn s).
@@ -174,7 +175,7 @@ Definition set_as_conn (s : st) (v : option nat) : st := set_pl s {| inv_time_ :
 Definition set_as_out (s : st) (v : bool) : st := set_pl s {| inv_time_ := inv_time_ (pl s); q_ := q_ (pl s); overflow_ := overflow_ (pl s); static_ := static_ (pl s); sg_rec_ := sg_rec_ (pl s); sg_fairy_ := sg_fairy_ (pl s); as_conn_ := as_conn_ (pl s); as_out_ := v |}.
 
 Definition init (cf : cfg) (fl : list Z) : st :=
-  {| ex := {| clock_ := 0; faults_ := fl; trace_ := []; taint_close_ := false; taint_reset_ := false |};
+  {| ex := {| clock_ := 0; faults_ := fl; trace_ := []; taint_close_ := false; taint_gc_ := false |};
      cn := {| nconns_ := O; c_nclose_ := fun _ => 0; c_start_ := fun _ => 0; c_det_ := fun _ => false;
               c_mark_ := fun _ => false; c_soft_ := fun _ => false |};
      rc := {| nrecs_ := O; r_dbc_ := fun _ => None; r_start_ := fun _ => 0; r_soft_ := fun _ => 0;
@@ -257,9 +258,10 @@ Definition rec_close (r : nat) (s : st) : res unit * st :=
   match r_dbc s r with
   | None => (Raise InternalE, s)
   | Some c =>
+      (* try: pool._close_connection(...) finally: self.dbapi_connection = None *)
       match close_connection c s with
       | (Ok _, s1) => (Ok tt, set_r_dbc s1 (upd (r_dbc s1) r None))
-      | (Raise e, s1) => (Raise e, s1)
+      | (Raise e, s1) => (Raise e, set_r_dbc s1 (upd (r_dbc s1) r None))
       end
   end.
 
@@ -458,10 +460,15 @@ Definition rec_checkin (r : nat) (fairy_was_created : bool) (s : st) : res unit 
   | Some _ => do_return_conn r (set_r_fairy s (upd (r_fairy s) r None))
   end.
 
+(* try: self.invalidate(e=err) finally: self.checkin(...) *)
 Definition checkin_failed (r : nat) (fairy_was_created : bool) (s : st) : res unit * st :=
   match rec_invalidate r false s with
   | (Ok _, s1) => rec_checkin r fairy_was_created s1
-  | (Raise e, s1) => (Raise e, s1)
+  | (Raise e, s1) =>
+      match rec_checkin r fairy_was_created s1 with
+      | (Ok _, s2) => (Raise e, s2)
+      | (Raise e2, s2) => (Raise e2, s2)
+      end
   end.
 
 (* with util.safe_reraise(): handler  -- the original error unless the handler raises *)
@@ -498,6 +505,13 @@ Definition fairy_reset (c : nat) (transaction_was_reset : bool) (s : st) : res u
   | RNone => (Ok tt, s)
   end.
 
+(* fairy.dbapi_connection = None; fairy._connection_record = None *)
+Definition clear_fairy (fy : option nat) (s : st) : st :=
+  match fy with
+  | Some f => set_f_rec (set_f_dbc s (upd (f_dbc s) f None)) (upd (f_rec s) f None)
+  | None => s
+  end.
+
 (* _finalize_fairy(dbc, r, pool, ref, echo, transaction_was_reset, fairy):
    [gcf] = Some f when called from the weakref callback of fairy f (then ref is "f's ref"),
    [fy] = the fairy argument *)
@@ -515,6 +529,15 @@ Definition finalize (dbc : option nat) (r : option nat) (gcf : option nat) (twr 
   else
     let dbc := match gcf, r with Some _, Some r0 => r_dbc s r0 | _, _ => dbc end in
     let detach := match r with None => true | Some _ => false end in
+    (* if connection_record and connection_record.fairy_ref is not None: connection_record.checkin() *)
+    let checkin_if_owned (s : st) : res unit * st :=
+      match r with
+      | Some r0 => match r_fairy s r0 with
+                   | Some _ => rec_checkin r0 true s
+                   | None => (Ok tt, s)
+                   end
+      | None => (Ok tt, s)
+      end in
     let '(x, s1) :=
       match dbc with
       | None => (Ok tt, s)
@@ -528,24 +551,22 @@ Definition finalize (dbc : option nat) (r : option nat) (gcf : option nat) (twr 
           | Ok _ => (Ok tt, s1)
           | Raise e =>
               (* except BaseException as e: connection_record.invalidate(e); a non-Exception error is
-                 re-raised after the (invalidated) record has been checked in *)
-              let s1 := if negb is_gc && negb (is_exception e) then set_taint_reset s1 true else s1 in
+                 re-raised after the (invalidated) record has been checked in and the fairy detached *)
               let '(z, s2) := match r with
                               | Some r0 => rec_invalidate r0 false s1
                               | None => (Ok tt, s1)
                               end in
               match z with
-              | Raise e2 => (Raise e2, s2)
+              | Raise e2 =>
+                  (* close() raised a BaseException inside the handler: nothing below runs; in the
+                     weakref callback the record is lost (ghost taint_gc) *)
+                  (Raise e2, if is_gc then set_taint_gc s2 true else s2)
               | Ok _ =>
                   if is_exception e then (Ok tt, s2)
                   else
-                    match r with
-                    | Some r0 =>
-                        match r_fairy s2 r0 with
-                        | Some _ => reraise_after e (rec_checkin r0 true s2)
-                        | None => (Raise e, s2)
-                        end
-                    | None => (Raise e, s2)
+                    match checkin_if_owned s2 with
+                    | (Ok _, s3) => (Raise e, clear_fairy fy s3)
+                    | (Raise e3, s3) => (Raise e3, s3)
                     end
               end
           end
@@ -553,21 +574,9 @@ Definition finalize (dbc : option nat) (r : option nat) (gcf : option nat) (twr 
     match x with
     | Raise e => (Raise e, s1)
     | Ok _ =>
-        let '(w, s2) :=
-          match r with
-          | Some r0 => match r_fairy s1 r0 with
-                       | Some _ => rec_checkin r0 true s1
-                       | None => (Ok tt, s1)
-                       end
-          | None => (Ok tt, s1)
-          end in
-        match w with
-        | Raise e => (Raise e, s2)
-        | Ok _ =>
-            match fy with
-            | Some f => (Ok tt, set_f_rec (set_f_dbc s2 (upd (f_dbc s2) f None)) (upd (f_rec s2) f None))
-            | None => (Ok tt, s2)
-            end
+        match checkin_if_owned s1 with
+        | (Raise e, s2) => (Raise e, s2)
+        | (Ok _, s2) => (Ok tt, clear_fairy fy s2)
         end
     end.
 
